@@ -762,13 +762,15 @@ impl<'a, S: Scorer> Wand<'a, S> {
                     return false;
                 };
 
-                let move_to = if last > next {
-                    last
-                } else {
-                    std::cmp::max(last + 1, next - slop)
-                };
-                max_relative_pos = max_relative_pos.max(Some(move_to));
                 if !(last <= next && next <= last + slop) {
+                    // only a pair that is out of place decides how far to advance,
+                    // a pair that already lines up must not skip its own match
+                    let move_to = if last > next {
+                        last
+                    } else {
+                        std::cmp::max(last + 1, next - slop)
+                    };
+                    max_relative_pos = max_relative_pos.max(Some(move_to));
                     all_same = false;
                     break;
                 }
